@@ -110,7 +110,7 @@ def reg_serialize_raw(reg, prop):
             "implies((msg.send_flags & 16) != 0 and 0 <= j0 and j0 < len(msg.acks), "
             "be32at(result, 6 + len(val(msg.raw_body)) + 4 * j0) == msg.acks[len(msg.acks) - 1 - j0])",
         ],
-        loops={0: {"inv": [
+        loops={"for ack in reversed(msg.acks)": {"inv": [
             "len(writer.buffer) == 6 + len(val(msg.raw_body)) + 4 * _i",
             "writer.buffer[0] == msg.send_flags and writer.buffer[5] == len(msg.raw_extra)",
             "be32at(writer.buffer, 1) == ite(is_none(msg.packet_id), 0, val(msg.packet_id))",
